@@ -40,6 +40,8 @@ pub fn div_nxm_normalized(numerator: &mut [u64], divisor: &[u64]) {
 
         // Overflow case
         if unlikely(n21 == d) {
+            #[cfg(recmo_uint_verif)]
+            crate::verif_hooks::hit(crate::verif_hooks::C::KNUTH_NORM_FORCED);
             let q = u64::MAX;
             let _carry = submul_nx1(&mut numerator[j..j + n], divisor, q);
             numerator[j + n] = q;
@@ -63,6 +65,8 @@ pub fn div_nxm_normalized(numerator: &mut [u64], divisor: &[u64]) {
         // If we have a carry then the quotient was one too large.
         // We correct by decrementing the quotient and adding one divisor back.
         if unlikely(borrow) {
+            #[cfg(recmo_uint_verif)]
+            crate::verif_hooks::hit(crate::verif_hooks::C::KNUTH_NORM_ADDBACK);
             q = q.wrapping_sub(1);
             let carry = adc_n(&mut numerator[j..j + n], &divisor[..n], 0);
             // Expect carry because we flip sign back to positive.
@@ -140,6 +144,10 @@ pub fn div_nxm(numerator: &mut [u64], divisor: &mut [u64]) {
             // two remainder limbs.
             let (mut q, r) = div_3x2(n21, n0, d, v);
 
+            #[cfg(recmo_uint_verif)]
+            if q == 0 {
+                crate::verif_hooks::hit(crate::verif_hooks::C::KNUTH_Q_ZERO);
+            }
             if q != 0 {
                 // Subtract the quotient times the divisor from the remainder.
                 // We already have the highest 128 bit, so we can reduce the
@@ -162,6 +170,12 @@ pub fn div_nxm(numerator: &mut [u64], divisor: &mut [u64]) {
                 // If we have a carry then the quotient was one too large.
                 // We correct by decrementing the quotient and adding one divisor back.
                 if unlikely(borrow) {
+                    #[cfg(recmo_uint_verif)]
+                    crate::verif_hooks::hit(if shift == 0 {
+                        crate::verif_hooks::C::KNUTH_ADDBACK_SHIFT0
+                    } else {
+                        crate::verif_hooks::C::KNUTH_ADDBACK_SHIFTED
+                    });
                     q = q.wrapping_sub(1);
                     let carry = adc_n(&mut numerator[j..j + n], &divisor[..n], 0);
                     // Expect carry because we flip sign back to positive.
@@ -171,6 +185,12 @@ pub fn div_nxm(numerator: &mut [u64], divisor: &mut [u64]) {
             q
         } else {
             // Overflow case
+            #[cfg(recmo_uint_verif)]
+            crate::verif_hooks::hit(if shift == 0 {
+                crate::verif_hooks::C::KNUTH_FORCED_SHIFT0
+            } else {
+                crate::verif_hooks::C::KNUTH_FORCED_SHIFTED
+            });
             let q = u64::MAX;
             let _carry = submul_nx1(&mut numerator[j..j + n], divisor, q);
             q
@@ -187,6 +207,10 @@ pub fn div_nxm(numerator: &mut [u64], divisor: &mut [u64]) {
     // Copy remainder to `divisor` and `quotient` to numerator.
     divisor.copy_from_slice(&numerator[..n]);
     numerator.copy_within(n.., 0);
+    #[cfg(recmo_uint_verif)]
+    if q_high != 0 {
+        crate::verif_hooks::hit(crate::verif_hooks::C::KNUTH_Q_HIGH_NONZERO);
+    }
     numerator[m] = q_high;
     numerator[m + 1..].fill(0);
 }
